@@ -160,3 +160,13 @@ Lemma C15_example_proof :
   mw_step None 0%Z (route_call o k (GOk lis) (fun _ => GErr) 0) =
     {| mo_err := 1; mo_next := 0; mo_tag := None; mo_locked := false; mo_timeout := 0%Z |}.
 Proof. vm_compute. split; reflexivity. Qed.
+
+(** the statement evaluated on the implementation against the messages the control plane sent holds of the model *)
+Lemma insts_eqb_refl a : insts_eqb a a = true.
+Proof.
+  unfold insts_eqb. destruct a as [l|]; cbn [opt_eqb]; [|reflexivity].
+  induction l as [|[x w] l IH]; cbn [list_eqb fst snd]; [reflexivity|]. rewrite String.eqb_refl, N.eqb_refl, IH. reflexivity.
+Qed.
+
+Lemma src_spec_model c : rs_obs (r2_case c) = resolve (src_cluster c) (src_eds c) -> src_spec c = true.
+Proof. intros H. unfold src_spec. rewrite H. apply insts_eqb_refl. Qed.
